@@ -153,20 +153,33 @@ static void gate_path(int mutating, const char *call, const char *p, const char 
 }
 
 /* fd-based data call: regular files that match WATCH; pipes/sockets (not fd 0/1/2) when VPSCHED_PIPES */
-static void gate_fd(int mutating, const char *call, int fd, size_t len) {
+/* log-only record of a data call's RESULT (a pipe write may be partial): "<pid> 0 X ret - - <bytes>" */
+static void note_ret(long ret) {
+  if (disabled || !logf) return;
+  char buf[128];
+  int n = snprintf(buf, sizeof buf, "%d 0 X ret - - %ld\n", getpid(), ret);
+  pthread_mutex_lock(&mu);
+  int fd = real_open64(logf, O_WRONLY | O_APPEND | O_CREAT, 0644);
+  if (fd >= 0) { ssize_t r = real_write(fd, buf, n); (void)r; real_close(fd); }
+  pthread_mutex_unlock(&mu);
+}
+
+static int gate_fd(int mutating, const char *call, int fd, size_t len) {
   init();
-  if (fd == sock_fd && fd >= 0) return;
+  if (fd == sock_fd && fd >= 0) return 0;
   struct stat st;
-  if (fstat(fd, &st) != 0) return;
+  if (fstat(fd, &st) != 0) return 0;
   char a[4096], ex[64];
   snprintf(ex, sizeof ex, "%zu", len);
   if (S_ISREG(st.st_mode)) {
     fd_path(fd, a, sizeof a);
-    if (logf && strcmp(a, logf) == 0) return;
-    if (considered(a, NULL)) announce(mutating, call, a, NULL, ex);
+    if (logf && strcmp(a, logf) == 0) return 0;
+    if (considered(a, NULL)) { announce(mutating, call, a, NULL, ex); return 1; }
   } else if (pipes && fd > 2 && (S_ISFIFO(st.st_mode) || S_ISSOCK(st.st_mode))) {
     announce(mutating, call, "pipe", NULL, ex);
+    return 1;
   }
+  return 0;
 }
 
 int open64(const char *p, int flags, ...) {
@@ -201,13 +214,18 @@ int openat(int dfd, const char *p, int flags, ...) {
 
 ssize_t write(int fd, const void *b, size_t n) {
   init();
-  if (fd > 2) gate_fd(1, "write", fd, n);
-  return real_write(fd, b, n);
+  int g = (fd > 2) ? gate_fd(1, "write", fd, n) : 0;
+  ssize_t r = real_write(fd, b, n);
+  if (g) note_ret((long)r);
+  return r;
 }
 ssize_t writev(int fd, const struct iovec *iov, int c) {
   init();
-  if (fd > 2) { size_t t = 0; for (int i = 0; i < c; i++) t += iov[i].iov_len; gate_fd(1, "write", fd, t); }
-  return real_writev(fd, iov, c);
+  int g = 0;
+  if (fd > 2) { size_t t = 0; for (int i = 0; i < c; i++) t += iov[i].iov_len; g = gate_fd(1, "write", fd, t); }
+  ssize_t r = real_writev(fd, iov, c);
+  if (g) note_ret((long)r);
+  return r;
 }
 ssize_t read(int fd, void *b, size_t n) {
   init();
@@ -217,20 +235,26 @@ ssize_t read(int fd, void *b, size_t n) {
 ssize_t copy_file_range(int fi, off64_t *oi, int fo, off64_t *oo, size_t len, unsigned int fl) {
   static ssize_t (*real)(int, off64_t *, int, off64_t *, size_t, unsigned int);
   if (!real) real = dlsym(RTLD_NEXT, "copy_file_range");
-  gate_fd(1, "copy_file_range", fo, len);
-  return real(fi, oi, fo, oo, len, fl);
+  int g = gate_fd(1, "copy_file_range", fo, len);
+  ssize_t r = real(fi, oi, fo, oo, len, fl);
+  if (g) note_ret((long)r);
+  return r;
 }
 ssize_t sendfile64(int out, int in, off64_t *off, size_t len) {
   static ssize_t (*real)(int, int, off64_t *, size_t);
   if (!real) real = dlsym(RTLD_NEXT, "sendfile64");
-  if (out > 2) gate_fd(1, "sendfile", out, len);
-  return real(out, in, off, len);
+  int g = (out > 2) ? gate_fd(1, "sendfile", out, len) : 0;
+  ssize_t r = real(out, in, off, len);
+  if (g) note_ret((long)r);
+  return r;
 }
 ssize_t splice(int fi, off64_t *oi, int fo, off64_t *oo, size_t len, unsigned int fl) {
   static ssize_t (*real)(int, off64_t *, int, off64_t *, size_t, unsigned int);
   if (!real) real = dlsym(RTLD_NEXT, "splice");
-  if (fo > 2) gate_fd(1, "splice", fo, len);
-  return real(fi, oi, fo, oo, len, fl);
+  int g = (fo > 2) ? gate_fd(1, "splice", fo, len) : 0;
+  ssize_t r = real(fi, oi, fo, oo, len, fl);
+  if (g) note_ret((long)r);
+  return r;
 }
 int fsync(int fd) {
   static int (*real)(int);
